@@ -15,6 +15,10 @@ VERIF = Path(__file__).resolve().parent.parent
 SPEC = VERIF / "spec"
 WORK = VERIF / ".work"
 EVIDENCE = VERIF / "evidence"
+if os.environ.get("VERIF_TRIAL_EVIDENCE"):
+    # seeded-change trials (tools/try_seed.sh) must not overwrite the evidence of the unchanged tree
+    EVIDENCE = Path(os.environ["VERIF_TRIAL_EVIDENCE"])
+    EVIDENCE.mkdir(parents=True, exist_ok=True)
 REPLAY = VERIF / ".work" / "replay"
 KNOWN_FINDINGS = VERIF / "known_findings.json"
 PY = "/venv/bin/python"
